@@ -30,8 +30,8 @@ CHECKS['C02'] = {
         'power loss / fsync durability is not modelled (the property speaks of process death)',
     ],
     'units': [
-        unit('crash', 'keepstore_c02', '^TestVerifC02Crash$', {'shards': 15, 'checks': 4}, {'shards': 16, 'checks': 30, 'timeout': 1500}),
+        unit('crash', 'keepstore_c02', '^TestVerifC02Crash$', {'shards': 15, 'checks': 4}, {'shards': 16, 'checks': 80, 'timeout': 3000}),
         unit('realkill', 'keepstore_c02', '^TestVerifC02RealKill$', None, {'shards': 8, 'checks': 3, 'timeout': 1500}),
-        unit('indexfault', 'keepstore_c02', '^TestVerifC02IndexFault$', {'shards': 1, 'checks': 40}, {'shards': 4, 'checks': 500, 'timeout': 600}),
+        unit('indexfault', 'keepstore_c02', '^TestVerifC02IndexFault$', {'shards': 1, 'checks': 40}, {'shards': 4, 'checks': 1500, 'timeout': 1500}),
     ],
 }
